@@ -1,10 +1,15 @@
 (* C16 — Tessellated prisms are closed, outward-facing and of the right size.
    Only statements here; each is closed by `exact <lemma>` from proofs/P_shapes.v.
    The vertex formulas and the two face tables of coq/model/M_shapes.v are pinned to polliwog/shapes/_shapes.py on
-   every run by the traced kernels of tools/props/C16.py. *)
+   every run by the traced kernels of tools/props/C16.py.
+   Reading notes.
+   * Volume, area and outwardness are stated over `somes (flatten vertices faces)`, which would skip a face with an index out of
+     range; it cannot skip any here: all indices are proved in range (C16_prism_span_counts, C16_tri_prism_counts) and every
+     flattened row is proved to be `Some` (C16_flattened_is_take, C16_tri_flattened_is_take).
+   * The block marked "definitional" at the end pins the shape of the model only; see the comment there. *)
 From Coq Require Import ZArith Reals Lra List Bool.
 From PW Require Import Num NumR Vec Result.
-From PW.model Require Import M_shapes.
+From PW.model Require Import M_shapes M_shapes_spec.
 From PW.proofs Require Import P_shapes.
 Import ListNotations.
 Local Open Scope R_scope.
@@ -44,6 +49,14 @@ Theorem C16_tri_volume_is_base_times_height : forall p1 p2 p3 h, noncollinear p1
   signed_volume ROps (tri_prism_vertices ROps p1 p2 p3 h) tri_prism_faces = base_area p1 p2 p3 * h /\
   0 < base_area p1 p2 p3.
 Proof. intros p1 p2 p3 h H. exact (conj (tri_volume p1 p2 p3 h H) (base_area_pos p1 p2 p3 H)). Qed.
+
+(* outward = positive enclosed signed volume, on the property's domain *)
+Theorem C16_signed_volume_positive : forall origin size p1 p2 p3 h,
+  (0 < vx size -> 0 < vy size -> 0 < vz size ->
+   0 < signed_volume ROps (rect_prism_vertices ROps origin size) rect_prism_faces) /\
+  (noncollinear p1 p2 p3 -> 0 < h ->
+   0 < signed_volume ROps (tri_prism_vertices ROps p1 p2 p3 h) tri_prism_faces).
+Proof. intros o s p1 p2 p3 h. exact (conj (rect_volume_pos o s) (tri_volume_pos p1 p2 p3 h)). Qed.
 
 (* every face of the box looks away from its centre *)
 Theorem C16_rect_outward : forall origin size, 0 < vx size -> 0 < vy size -> 0 < vz size ->
@@ -88,26 +101,32 @@ Proof.
         (conj (tri_normal_unit p1 p2 p3 H) (conj (tri_normal_dot p1 p2 p3 H) (P_vec.vnorm_pos _ H)))).
 Qed.
 
-(* ---- flattened return value = vertices[faces] ------------------------------------------------------------------- *)
-Theorem C16_flattened_is_take : forall origin size,
-  rectangular_prism_flat ROps origin size =
-    map (fun f => let '(a, b, c) := f in
-                  Some (List.nth a (rect_prism_vertices ROps origin size) origin,
-                        List.nth b (rect_prism_vertices ROps origin size) origin,
-                        List.nth c (rect_prism_vertices ROps origin size) origin)) rect_prism_faces.
-Proof. exact rect_flat_all_defined. Qed.
+(* the given triangle is itself one of the faces (vertices 0,1,2 in the given order); the far base is face (5,4,3) *)
+Theorem C16_tri_given_triangle_is_a_face : In (0, 1, 2)%nat tri_prism_faces /\ In (5, 4, 3)%nat tri_prism_faces.
+Proof. exact tri_base_faces. Qed.
 
-Theorem C16_tri_flattened_is_take : forall p1 p2 p3 h,
-  let vs := tri_prism_vertices ROps p1 p2 p3 h in
-  flatten vs tri_prism_faces =
-    map (fun f => let '(a, b, c) := f in Some (List.nth a vs p1, List.nth b vs p1, List.nth c vs p1)) tri_prism_faces.
-Proof. exact tri_flat_all_defined. Qed.
-(* in general: row k of the flattened array is the coordinate triple of face k *)
+(* ---- flattened return value = vertices[faces] ------------------------------------------------------------------- *)
+(* in general: row k of the flattened array is the coordinate triple of face k (tri_at = rows at the three indices) *)
 Theorem C16_flatten_rows : forall (vs : list (vec3 R)) fs k,
   nth_error (flatten vs fs) k = option_map (tri_at vs) (nth_error fs k).
 Proof. exact flatten_rows. Qed.
 
-(* ---- non-float size / height are rejected with ValueError; floats are accepted ----------------------------------- *)
+(* ================================================================================================================ *)
+(* definitional: pins the shape of the model; the content is carried by the traced ties / correspondence             *)
+(*   - flattened = vertices[faces]: the flat model is DEFINED as `flatten vertices faces`; what these two theorems add is  *)
+(*     only that every index is in range (every row is Some).  That the CODE's flattened output is this list is proved on *)
+(*     every run by the traced lemmas T_rect_flat_ok / T_tri_flat_ok, and the oracle checks flat == vertices[faces]        *)
+(*     exactly on every sampled case.                                                                                       *)
+(*   - non-float rejected: holds by the `match` of the model; that the CODE raises ValueError exactly for non-floats is    *)
+(*     tied by the concrete traced kernels cube_rejects_int / tri_rejects_int, by correspondence and by the oracle.        *)
+(* ================================================================================================================ *)
+Theorem C16_flattened_is_take : forall origin size,
+  rectangular_prism_flat ROps origin size = map (tri_at (rect_prism_vertices ROps origin size)) rect_prism_faces /\
+  forallb is_some (rectangular_prism_flat ROps origin size) = true.
+Proof. exact rect_flat_rows. Qed.
+Theorem C16_tri_flattened_is_take : forall p1 p2 p3 h,
+  forallb is_some (flatten (tri_prism_vertices ROps p1 p2 p3 h) tri_prism_faces) = true.
+Proof. exact tri_flat_rows. Qed.
 Theorem C16_nonfloat_rejected : forall origin p1 p2 p3 z,
   cube ROps origin (PyInt z) = Raise ValueError /\ cube ROps origin PyOther = Raise ValueError /\
   triangular_prism ROps p1 p2 p3 (PyInt z) = Raise ValueError /\
@@ -125,7 +144,8 @@ Proof.
 Qed.
 
 Definition C16_all := (C16_rect_closed_two_manifold, C16_tri_closed_two_manifold, C16_prism_span_counts,
-  C16_tri_prism_counts, C16_rect_volume_is_product, C16_tri_volume_is_base_times_height, C16_rect_outward, C16_tri_outward, C16_cube_volume_area,
+  C16_tri_prism_counts, C16_rect_volume_is_product, C16_tri_volume_is_base_times_height, C16_signed_volume_positive,
+  C16_tri_given_triangle_is_a_face, C16_rect_outward, C16_tri_outward, C16_cube_volume_area,
   C16_tri_flattened_is_take, C16_flatten_rows,
   C16_rect_area_is_analytic, C16_tri_area_is_analytic, C16_tri_prism_base_and_side, C16_flattened_is_take,
   C16_nonfloat_rejected, C16_float_accepted).
